@@ -25,6 +25,7 @@ PROPERTY = {
         "trajectories are discarded",
     ],
 }
+PROPERTY["rule"] += ' One case in five of the main arm delays a subset of the edges by 2-7 steps.'
 
 
 def run_both(spec, cfg, res: CaseResult):
